@@ -21,3 +21,5 @@ func VerifIntHashSha256(input []byte) *big.Int { return common.IntHashSha256(inp
 func VerifCreateChallenge(context, nonce *big.Int, contributions []*big.Int, issig bool) *big.Int {
 	return createChallenge(context, nonce, contributions, issig)
 }
+
+func VerifSmallPrimes() ([]uint8, *big.Int) { return common.SmallPrimes, common.SmallPrimesProduct }
